@@ -539,8 +539,10 @@ mod n {
     fn judge_model(c: &mut Ctx, what: &str, m: &Model) {
         let v = closure_violations(m);
         c.check("C02.closed", v.is_empty(), || format!("{}: {} broken links / ids, first: {:?}", what, v.len(), &v[..v.len().min(3)]));
+        // the checker's other clause - a thermal bridge whose written length is negative - is not about links
         let w = crate::checks::check(m);
-        c.check("C02.checker_silent", w.is_empty(), || format!("{}: model checker reports {:?}", what, w.iter().take(3).map(|x| x.msg.clone()).collect::<Vec<_>>()));
+        let negative_lengths = m.thermal_bridges.iter().filter(|tb| tb.l < 0.0).count();
+        c.check("C02.checker_silent", w.len() == negative_lengths, || format!("{}: model checker reports {:?}", what, w.iter().take(3).map(|x| x.msg.clone()).collect::<Vec<_>>()));
     }
 
     #[test]
@@ -703,6 +705,52 @@ mod n {
         broken_refs("C02.broken", "all 12 shipped .ctehexml projects: every referenced definition renamed (suffix / lower case) or removed, one at a time; real parser + converter", |all| all.to_vec());
     }
 
+    // every project obtained from a shipped one by writing another value for one number: still closed, or an error
+    #[test]
+    fn n_c02_value_edits() {
+        let projects: Vec<(String, String)> = project_files().iter().map(|f| (f.file_name().unwrap().to_string_lossy().to_string(), std::fs::read_to_string(f).unwrap())).collect();
+        let thorough = std::env::var("VERIF_TIER").map(|t| t == "thorough").unwrap_or(false);
+        let seed: usize = std::env::var("VERIF_SEED").ok().and_then(|s| s.parse().ok()).unwrap_or(0);
+        let step = if thorough { 1 } else { 6 };
+        let mut slice: Vec<(usize, usize)> = vec![];
+        for (fi, (_, text)) in projects.iter().enumerate() {
+            let n = text.split_inclusive('\n').count();
+            let mut l = (seed + fi) % step;
+            while l < n {
+                slice.push((fi, l));
+                l += step;
+            }
+        }
+        const VALUE_KINDS: [usize; 5] = [5, 8, 9, 10, 4];
+        drive("C02.value_edits", "the 12 shipped .ctehexml projects with the first number of one line replaced by -7 / 0 / 100 / 1 / 1e39 (every 6th line quick, offset by VERIF_SEED; every line thorough): the converted model is closed (own oracle + model checker), or conversion returns an error", |c| {
+            let k = c.pick(slice.len());
+            let kind = VALUE_KINDS[c.pick(VALUE_KINDS.len())];
+            let (fi, line) = slice[k];
+            let (fname, text) = &projects[fi];
+            let edited = match damage(text, line, kind) {
+                Some(t) => t,
+                None => return,
+            };
+            c.note(format!("{} line {}: {}", fname, line + 1, DAMAGE_KINDS[kind]));
+            match convert_text(edited) {
+                Outcome::Model(m) => {
+                    judge_model(c, &format!("{} with line {} {}", fname, line + 1, DAMAGE_KINDS[kind]), &m);
+                    c.nontrivial(format!("{} converted", DAMAGE_KINDS[kind]));
+                }
+                Outcome::Rejected(e) => {
+                    c.check("C02.value_edits.rejected", !e.is_empty(), || "empty error".to_string());
+                    c.nontrivial(format!("{} rejected", DAMAGE_KINDS[kind]));
+                    c.sample(|| format!("{} line {} {}: error: {}", fname, line + 1, DAMAGE_KINDS[kind], e.chars().take(80).collect::<String>()));
+                }
+                Outcome::Crashed(msg) => c.check("C02.rejects_with_error", false, || format!("{} with line {} {}: conversion panicked: {}", fname, line + 1, DAMAGE_KINDS[kind], msg.chars().take(200).collect::<String>())),
+                Outcome::Hung => {
+                    c.check("C02.rejects_with_error", false, || format!("{} with line {} {}: no answer in 60 s", fname, line + 1, DAMAGE_KINDS[kind]));
+                    c.stop();
+                }
+            }
+        });
+    }
+
     // ---- C05: export and indicators are deterministic, reproducible and history-independent ----------------------
     fn fnv(text: &str) -> String {
         let mut h: u64 = 0xcbf29ce484222325;
@@ -819,40 +867,72 @@ mod n {
 
     const LIBRARY_KINDS: [&str; 14] = ["MATERIAL", "LAYERS", "CONSTRUCTION", "GLASS-TYPE", "NAME-FRAME", "GAP", "DAY-SCHEDULE-PD", "WEEK-SCHEDULE-PD", "SCHEDULE-PD", "SPACE-CONDITIONS", "SYSTEM-CONDITIONS", "BUILDING-SHADE", "THERMAL-BRIDGE", "POLYGON"];
 
+    /// The project with solar protections on every window (shipped projects hardly have any): the attribute lines go
+    /// right before the `..` of each WINDOW block, where they override earlier values of the same key
+    fn with_window_protections(text: &str, v: usize) -> String {
+        let extra: &[&str] = match v {
+            1 => &["RIGHT-FIN-D = 0.5", "RIGHT-FIN-H = 1.2"],
+            2 => &["LEFT-FIN-D = 0.4", "LEFT-FIN-H = 1.1"],
+            3 => &["OVERHANG-D = 0.6", "OVERHANG-W = 1.5"],
+            4 => &["RIGHT-FIN-D = 0.5", "RIGHT-FIN-H = 1.2", "LEFT-FIN-D = 0.4", "LEFT-FIN-H = 1.1", "OVERHANG-D = 0.6", "OVERHANG-W = 1.5"],
+            _ => return text.to_string(),
+        };
+        let mut out = String::with_capacity(text.len() + 1024);
+        let mut in_window = false;
+        for line in text.split_inclusive('\n') {
+            let t = line.trim();
+            if t.starts_with('"') && t.ends_with("= WINDOW") {
+                in_window = true;
+            } else if in_window && t == ".." {
+                for e in extra {
+                    out.push_str("         ");
+                    out.push_str(e);
+                    out.push('\n');
+                }
+                in_window = false;
+            }
+            out.push_str(line);
+        }
+        out
+    }
+
+    const TWIN_KINDS: [&str; 15] = ["MATERIAL", "LAYERS", "CONSTRUCTION", "GLASS-TYPE", "NAME-FRAME", "GAP", "DAY-SCHEDULE-PD", "WEEK-SCHEDULE-PD", "SCHEDULE-PD", "SPACE-CONDITIONS", "SYSTEM-CONDITIONS", "BUILDING-SHADE", "THERMAL-BRIDGE", "POLYGON", "WINDOW"];
+
     #[test]
     fn n_c05_ids_local() {
-        let texts: Vec<(String, String, Vec<(usize, String, String)>)> = project_files()
-            .iter()
-            .map(|f| {
-                let t = std::fs::read_to_string(f).unwrap();
-                let defs = definitions(&t);
-                (f.file_name().unwrap().to_string_lossy().to_string(), t, defs)
-            })
-            .collect();
-        drive("C05.ids", "all 12 shipped projects x 14 library block kinds: a copy of the first / middle / last block of the kind is added under a new name (an unrelated definition); every element of the original model keeps its id", |c| {
-            let k = c.pick(texts.len());
-            let (fname, text, defs) = &texts[k];
-            let kind = c.of(&LIBRARY_KINDS);
+        let files = project_files();
+        drive("C05.ids", "all 12 shipped projects, as shipped and with right fins / left fins / overhangs / all three on every window, x 15 block kinds (14 library kinds and WINDOW): a copy of the first / middle / last block of the kind is added under a new name right before the original (an unrelated definition; a twin window also gets an overhang); every element of the original model keeps its id", |c| {
+            let k = c.pick(files.len());
+            let protections = c.pick(5);
+            let kind = c.of(&TWIN_KINDS);
             let which = c.pick(3);
+            let fname = files[k].file_name().unwrap().to_string_lossy().to_string();
+            let text = with_window_protections(&std::fs::read_to_string(&files[k]).unwrap(), protections);
+            let defs = definitions(&text);
             let of_kind: Vec<&(usize, String, String)> = defs.iter().filter(|d| d.2 == kind).collect();
-            if of_kind.is_empty() {
+            if of_kind.is_empty() || (which > 0 && of_kind.len() == 1) {
                 return;
             }
             let (at, name, _) = of_kind[[0, of_kind.len() / 2, of_kind.len() - 1][which]];
-            c.note(format!("{}: twin of {} \"{}\"", fname, kind, name));
+            c.note(format!("{} (window protections {}): twin of {} \"{}\"", fname, protections, kind, name));
             let start = text[..*at].rfind('\n').map(|i| i + 1).unwrap_or(0);
             let mut end = start;
+            let mut last_line_start = start;
             for line in text[start..].split_inclusive('\n') {
+                last_line_start = end;
                 end += line.len();
                 if line.trim_end().ends_with("..") {
                     break;
                 }
             }
-            let block = &text[start..end];
-            let twin = block.replacen(&format!("\"{}\"", name), &format!("\"{}_twin\"", name), 1);
+            let mut twin = text[start..last_line_start].replacen(&format!("\"{}\"", name), &format!("\"{}_twin\"", name), 1);
+            if kind == "WINDOW" {
+                twin.push_str("         OVERHANG-D = 0.8\n         OVERHANG-W = 2\n");
+            }
+            twin.push_str(&text[last_line_start..end]);
             let mut t = text.clone();
             t.insert_str(start, &twin);
-            let base = match hulc::ctehexml::parse_with_catalog(text).map_err(|e| e.to_string()).and_then(|d| Model::try_from(&d).map_err(|e| e.to_string())) {
+            let base = match hulc::ctehexml::parse_with_catalog(&text).map_err(|e| e.to_string()).and_then(|d| Model::try_from(&d).map_err(|e| e.to_string())) {
                 Ok(m) => m,
                 Err(_) => return,
             };
@@ -864,9 +944,10 @@ mod n {
                 }
             };
             let (a, b) = (id_table(&base), id_table(&edited));
+            c.check("C05.ids.protections_present", protections == 0 || base.windows.is_empty() || base.shades.iter().any(|s| s.name.ends_with("_fin") || s.name.ends_with("_overhang")), || format!("{}: no fin / overhang shade was generated for protections {}: {:?}", fname, protections, base.shades.iter().map(|s| s.name.clone()).take(5).collect::<Vec<_>>()));
             let moved: Vec<String> = a.iter().filter(|(coll, n, id)| !b.iter().any(|(c2, n2, id2)| c2 == coll && n2 == n && id2 == id)).map(|(coll, n, _)| format!("{} {}", coll, n)).collect();
-            c.check("C05.ids.local", moved.is_empty(), || format!("{}: adding an unrelated {} changed the id of (or lost) {} elements, e.g. {:?}", fname, kind, moved.len(), &moved[..moved.len().min(3)]));
-            c.nontrivial(format!("{} {}", fname, kind));
+            c.check("C05.ids.local", moved.is_empty(), || format!("{} (window protections {}): adding an unrelated {} changed the id of (or lost) {} elements, e.g. {:?}", fname, protections, kind, moved.len(), &moved[..moved.len().min(3)]));
+            c.nontrivial(format!("{} {} {}", fname, kind, protections));
             c.sample(|| format!("{}: twin of {} \"{}\": {} -> {} elements", fname, kind, name, a.len(), b.len()));
         });
     }
@@ -1191,16 +1272,16 @@ mod n {
 
     #[test]
     fn n_c19_projects() {
-        c19_drive("C19.projects", "the 12 shipped .ctehexml projects: 8 kinds of single-line damage on every 8th line (quick; offset by VERIF_SEED) or on every line (thorough); real parser (with catalogue) + converter", 8, &[FileKind::Ctehexml]);
+        c19_drive("C19.projects", "the 12 shipped .ctehexml projects: 11 kinds of single-line damage on every 8th line (quick; offset by VERIF_SEED) or on every line (thorough); real parser (with catalogue) + converter", 8, &[FileKind::Ctehexml]);
     }
 
     #[test]
     fn n_c19_legacy() {
-        c19_drive("C19.legacy", "the 56 legacy LIDER .cte files: 8 kinds of single-line damage on every 20th line (quick) or every line (thorough); bdl::Data::new + Model::try_from", 20, &[FileKind::Cte]);
+        c19_drive("C19.legacy", "the 56 legacy LIDER .cte files: 11 kinds of single-line damage on every 20th line (quick) or every line (thorough); bdl::Data::new + Model::try_from", 20, &[FileKind::Cte]);
     }
 
     #[test]
     fn n_c19_results() {
-        c19_drive("C19.results", "KyGananciasSolares.txt and NewBDL_O.tbl files: 8 kinds of single-line damage on every 4th line (quick) or every line (thorough); hulc::kyg::parse / hulc::tbl::parse", 4, &[FileKind::Kyg, FileKind::Tbl]);
+        c19_drive("C19.results", "KyGananciasSolares.txt and NewBDL_O.tbl files: 11 kinds of single-line damage on every 4th line (quick) or every line (thorough); hulc::kyg::parse / hulc::tbl::parse", 4, &[FileKind::Kyg, FileKind::Tbl]);
     }
 }
